@@ -27,6 +27,7 @@ class KUnit:
         self.module_src = read(os.path.join(UNITS, self.cfg['module']))
         self.harness = {h['name']: h for h in self.cfg.get('harness', [])}
         self.modname = 'verif_' + re.sub(r'\W', '_', name)
+        self.requires = self.cfg.get('requires', [])
 
     def full(self, h):
         mp = mod_path(self.host)
@@ -197,19 +198,32 @@ class KaniRun:
         rc, out, wall, rss, reason = run(['cargo', 'kani', '--only-codegen'] + KANI_Z, cwd=self.scratch, timeout=900)
         self.build_s = wall
         if rc != 0:
-            errs = '\n'.join(l for l in out.splitlines() if l.startswith('error') or ' --> ' in l)[:4000]
-            raise Undecided(f'kani build of the injected crate failed ({reason or rc}):\n{errs}\n' + out[-3000:])
+            errs = '\n'.join(m.group(0) for m in re.finditer(r'(?m)^error.*(?:\n(?!warning|error).*){0,12}', out))[:6000]
+            raise Undecided(f'kani build of the injected crate failed ({reason or rc}):\n{errs}')
 
     def run_harness(self, u, hname, playback=False, timeout=None):
         h = u.harness[hname]
         cmd = ['cargo', 'kani', '--harness', u.full(hname), '--exact'] + KANI_Z
-        if h.get('solver'):
-            cmd += ['--solver', h['solver']]
+        tail = []
+        solver = h.get('solver')
+        if solver == 'cvc5':
+            # cvc5 through CBMC's bit-vector (Boolector-flavour) SMT2 output; see vx/smtwrap
+            tail = ['-Z', 'unstable-options', '--cbmc-args', '--boolector', '--external-smt2-solver', os.path.join(VERIF, 'vx', 'smtwrap')]
+        elif solver == 'cvc5-fpa':
+            cmd += ['--solver', 'cvc5']
+        elif solver:
+            cmd += ['--solver', solver]
         if h.get('unwind'):
             cmd += ['--default-unwind', str(h['unwind'])]
+        if not h.get('cbmc_float_checks', False):
+            # CBMC's NaN / float-overflow instrumentation flags the code's deliberate inf/NaN
+            # (do_divition divides first, guards afterwards); Rust's own integer overflow
+            # assertions come from MIR and stay (self-test: tools:canary_i64_overflow)
+            cmd += ['--no-overflow-checks']
         cmd += h.get('args', [])
         if playback:
             cmd += ['-Z', 'concrete-playback', '--concrete-playback=print']
+        cmd += tail
         to = timeout or h.get('timeout', 600)
         rc, out, wall, rss, reason = run(cmd, cwd=self.scratch, timeout=to, rss_limit_gb=h.get('rss_gb', 10))
         return {'cmd': ' '.join(cmd), 'rc': rc, 'out': out, 'wall_s': round(wall, 2), 'peak_rss_mb': rss, 'killed': reason}
